@@ -146,17 +146,18 @@ Lemma act_ok c s o : cfg_ok c -> kinv c s ->
 Proof.
   intros C I. cbv zeta. unfold act. destruct (k_closed s) eqn:Cl; [cbn; auto 10|].
   pose proof (i_str _ _ I) as St.
-  assert (Same : forall l st ak, 0 <= st -> kinv c (mkk (k_now s) l (k_prev s) (k_out s) (k_left s) (k_timer s) (k_dorm s) st false ak (k_ping s))).
-  { intros l st ak Hst. destruct I as [A B D F G S]. rewrite Cl in *. constructor; cbn; auto. intros; discriminate. }
+  assert (Same : forall l st ak dr, 0 <= st -> kinv c (mkk (k_now s) l (k_prev s) (k_out s) (k_left s) (k_timer s) (k_dorm s) st false ak (k_ping s) dr)).
+  { intros l st ak dr Hst. destruct I as [A B D F G S]. rewrite Cl in *. constructor; cbn; auto. intros; discriminate. }
   destruct o; cbn [fst snd].
   - split; [exact I|]. act_fin.
   - split; [apply Same; lia|]. act_fin.
-  - destruct (k_dorm s) eqn:Dm.
+  - destruct (k_drain s) eqn:Dr; [split; [exact I|act_fin]|].
+    destruct (k_dorm s) eqn:Dm.
     + destruct (i_dorm _ _ I Dm) as [D1 D2]. destruct C as [Ct Co] eqn:EC.
       destruct (Z.ltb_spec (k_prev s) (k_last s)).
       * (* a byte was read while dormant *)
         assert (I2 : kinv c (mkk (k_now s) (k_last s) (k_last s) false (k_left s) (Z.max (k_now s) (k_last s + kc_time c)) false
-                                 (k_streams s + 1) false (k_ack s) (k_ping s))).
+                                 (k_streams s + 1) false (k_ack s) (k_ping s) false)).
         { pose proof (i_left _ _ I). constructor; cbn; intros; try discriminate; try lia. }
         cbn [k_timer k_now].
         destruct (Z.leb_spec (Z.max (k_now s) (k_last s + kc_time c)) (k_now s)) as [Hm|Hm].
@@ -170,9 +171,41 @@ Proof.
         -- apply ping_inv; [exact C | apply Same; lia | reflexivity | cbn; lia | cbn; rewrite D2; intros; discriminate].
         -- unfold ping_and_sleep. cbn. rewrite D2. act_fin.
     + split; [apply Same; lia|]. act_fin.
-  - destruct (Z.ltb_spec 0 (k_streams s)); (split; [first [apply Same; lia|exact I]|act_fin]).
+  - destruct ((0 <? k_streams s) && negb (k_drain s && (k_streams s =? 1))) eqn:E.
+    + apply andb_true_iff in E as [E _]. apply Z.ltb_lt in E. split; [apply Same; lia|act_fin].
+    + split; [exact I|act_fin].
   - split; [apply Same; lia|]. act_fin.
   - split; [apply Same; lia|]. act_fin.
+  - destruct (Z.leb_spec 1 (k_streams s)); (split; [first [apply Same; lia|exact I]|act_fin]).
+Qed.
+
+(* a transport that is closed at the end of a step was closed before it or the step shows the close *)
+Lemma advance_close_seen fuel c : forall s target,
+  k_closed (fst (advance fuel c s target)) = true ->
+  k_closed s = true \/ existsb is_close (snd (advance fuel c s target)) = true.
+Proof.
+  induction fuel as [|f IH]; intros s target; cbn [advance]; [cbn; auto|].
+  destruct (k_closed s || k_dorm s || (target <=? k_timer s)) eqn:E; [cbn; auto|].
+  apply orb_false_iff in E as [E _]. apply orb_false_iff in E as [E1 E2].
+  destruct (fire_shape c s E1 E2) as [_ Hf].
+  destruct (fire c s) as [s1 e1]. cbn [fst snd] in *.
+  specialize (IH s1 target). destruct (advance f c s1 target) as [s2 e2]. cbn [fst snd] in *.
+  intros Hc. right. rewrite existsb_app.
+  destruct Hf as [(-> & _ & Hn)|[(-> & _ & Hn)|(-> & _)]]; [| |reflexivity];
+    (destruct (IH Hc) as [H|H]; [congruence|rewrite H; apply orb_true_r]).
+Qed.
+
+Lemma kstep_close_seen c s x o : cfg_ok c -> 0 <= x -> kinv c s ->
+  k_closed (fst (kstep c s x o)) = true ->
+  k_closed s = true \/ existsb is_close (snd (kstep c s x o)) = true.
+Proof.
+  intros C Hx I. unfold kstep.
+  pose proof (proj1 (advance_ok (fuel_for c (1000 * x + 1)) c C s (k_now s + (1000 * x + 1)) I ltac:(lia))) as A1.
+  pose proof (advance_close_seen (fuel_for c (1000 * x + 1)) c s (k_now s + (1000 * x + 1))) as H.
+  destruct (advance (fuel_for c (1000 * x + 1)) c s (k_now s + (1000 * x + 1))) as [s1 e1]. cbn [fst snd] in *.
+  destruct (act_ok c s1 o C A1) as (_ & _ & _ & _ & B5).
+  destruct (act c s1 o) as [s2 e2]. cbn [fst snd] in *. intros Hc. rewrite B5 in Hc.
+  destruct (H Hc) as [H1|H1]; [left; exact H1|right]. rewrite existsb_app, H1. reflexivity.
 Qed.
 
 Lemma kstep_ok c s x o : cfg_ok c -> 0 <= x -> kinv c s ->
@@ -239,7 +272,7 @@ Qed.
    is closed exactly Timeout after the ping *)
 Lemma advance_S f c s target : advance (S f) c s target =
   if k_closed s || k_dorm s || (target <=? k_timer s) then
-    (mkk target (k_last s) (k_prev s) (k_out s) (k_left s) (k_timer s) (k_dorm s) (k_streams s) (k_closed s) (k_ack s) (k_ping s), [])
+    (mkk target (k_last s) (k_prev s) (k_out s) (k_left s) (k_timer s) (k_dorm s) (k_streams s) (k_closed s) (k_ack s) (k_ping s) (k_drain s), [])
   else let '(s1, e1) := fire c s in let '(s2, e2) := advance f c s1 target in (s2, e1 ++ e2).
 Proof. reflexivity. Qed.
 
@@ -256,12 +289,12 @@ Proof.
     rewrite advance_S; rewrite Cl, D; cbn [orb]; (destruct (Z.leb_spec target (k_timer s)); [lia|]).
   - (* timeoutLeft = 0: this firing closes *)
     assert (Z0 : k_left s = 0) by lia.
-    assert (F : fire c s = (mkk (k_timer s) (k_last s) (k_prev s) (k_out s) (k_left s) (k_timer s) false (k_streams s) true (k_ack s) (k_ping s), [(8, k_timer s)])).
+    assert (F : fire c s = (mkk (k_timer s) (k_last s) (k_prev s) (k_out s) (k_left s) (k_timer s) false (k_streams s) true (k_ack s) (k_ping s) (k_drain s), [(8, k_timer s)])).
     { unfold fire. destruct (Z.ltb_spec (k_prev s) (k_last s)); [lia|]. rewrite O. cbn [andb].
       destruct (Z.leb_spec (k_left s) 0); [reflexivity|lia]. }
     rewrite F. cbn. repeat split; try lia. exists []. cbn. f_equal. f_equal. lia.
   - destruct (Z.eq_dec (k_left s) 0) as [Z0|Z0].
-    + assert (F : fire c s = (mkk (k_timer s) (k_last s) (k_prev s) (k_out s) (k_left s) (k_timer s) false (k_streams s) true (k_ack s) (k_ping s), [(8, k_timer s)])).
+    + assert (F : fire c s = (mkk (k_timer s) (k_last s) (k_prev s) (k_out s) (k_left s) (k_timer s) false (k_streams s) true (k_ack s) (k_ping s) (k_drain s), [(8, k_timer s)])).
       { unfold fire. destruct (Z.ltb_spec (k_prev s) (k_last s)); [lia|]. rewrite O. cbn [andb].
         destruct (Z.leb_spec (k_left s) 0); [reflexivity|lia]. }
       rewrite F.
@@ -273,7 +306,7 @@ Proof.
       { destruct A as [A|A]; [rewrite A; apply andb_false_r|]. destruct (Z.ltb_spec (k_streams s) 1); [lia|reflexivity]. }
       pose proof (fire_inv c s C I Cl D) as I1.
       assert (F : fire c s = (mkk (k_timer s) (k_last s) (k_prev s) true (k_left s - Z.min (kc_time c) (k_left s))
-                                  (k_timer s + Z.min (kc_time c) (k_left s)) false (k_streams s) false (k_ack s) (k_ping s), [])).
+                                  (k_timer s + Z.min (kc_time c) (k_left s)) false (k_streams s) false (k_ack s) (k_ping s) (k_drain s), [])).
       { unfold fire. destruct (Z.ltb_spec (k_prev s) (k_last s)); [lia|]. rewrite O. cbn [andb].
         destruct (Z.leb_spec (k_left s) 0); [lia|]. rewrite E. unfold ping_and_sleep. rewrite O. cbn. reflexivity. }
       rewrite F in *. cbn [fst] in I1.
@@ -308,7 +341,7 @@ Proof. vm_compute. reflexivity. Qed.
 
 (* wake-up from dormancy, in general: with an unobserved byte (prev < last) no ping is sent
    before last + Time; without one the ping goes out at once *)
-Lemma wake_step c s : cfg_ok c -> kinv c s -> k_closed s = false -> k_dorm s = true ->
+Lemma wake_step c s : cfg_ok c -> kinv c s -> k_closed s = false -> k_dorm s = true -> k_drain s = false ->
   let r := act c s KOpen in
   k_dorm (fst r) = false /\
   (k_prev s < k_last s ->
@@ -318,7 +351,7 @@ Lemma wake_step c s : cfg_ok c -> kinv c s -> k_closed s = false -> k_dorm s = t
   (k_last s <= k_prev s -> snd r = [(6, k_now s)] /\ k_ping (fst r) = k_now s /\ k_out (fst r) = true /\
                            k_timer (fst r) + k_left (fst r) = k_now s + kc_timeout c).
 Proof.
-  intros C I Cl D. cbv zeta. unfold act. rewrite Cl, D. destruct (i_dorm _ _ I D) as [_ O]. pose proof (i_str _ _ I) as St.
+  intros C I Cl D Dr. cbv zeta. unfold act. rewrite Cl, D, Dr. destruct (i_dorm _ _ I D) as [_ O]. pose proof (i_str _ _ I) as St.
   destruct (Z.ltb_spec (k_prev s) (k_last s)) as [H|H].
   - cbn [k_timer k_now].
     destruct (Z.leb_spec (Z.max (k_now s) (k_last s + kc_time c)) (k_now s)) as [Hm|Hm].
@@ -330,6 +363,26 @@ Proof.
       intros _. repeat split; lia.
   - unfold ping_and_sleep. cbn. rewrite O. cbn. split; [reflexivity|]. split; [intros; lia|]. intros _. repeat split; lia.
 Qed.
+
+(* a graceful GOAWAY received while a stream is open is a read and nothing else for the loop:
+   the transport is draining, every loop variable is as before.  fire / advance do not look at
+   k_drain, so steps (1)-(3) above (stated for every state) are the dead-peer bound of a
+   draining transport as well *)
+Lemma goaway_only_a_read c s : k_closed s = false -> 1 <= k_streams s ->
+  let r := act c s KGoAway in
+  snd r = [] /\ k_drain (fst r) = true /\ k_last (fst r) = k_now s /\ k_closed (fst r) = false /\
+  k_timer (fst r) = k_timer s /\ k_out (fst r) = k_out s /\ k_left (fst r) = k_left s /\
+  k_prev (fst r) = k_prev s /\ k_dorm (fst r) = k_dorm s /\ k_streams (fst r) = k_streams s.
+Proof.
+  intros Cl St. cbv zeta. unfold act. rewrite Cl. destruct (Z.leb_spec 1 (k_streams s)); [|lia]. cbn. auto 12.
+Qed.
+
+(* the witness of the dead peer behind a draining transport: Time 5 s, Timeout 2 s; a stream at
+   1 ms, GOAWAY at 2 ms, then silence: ping at 5.002 s = GOAWAY + Time, closed at 7.002 s *)
+Lemma draining_dead_peer_witness :
+  krun (mkkc 5000 2000 false) (kinit (mkkc 5000 2000 false)) [(0, KOpen); (0, KGoAway); (5, KWait); (3, KWait)] =
+  [[1]; [2]; [5003; 6; 5002]; [8004; 8; 7002]].
+Proof. vm_compute. reflexivity. Qed.
 
 (* ================= Part B: the ledger ================= *)
 Definition policy_gap (c : pcfg) (s : pst) : Z :=
@@ -438,10 +491,10 @@ Qed.
 
 Definition hw_next (c : kcfg) (s1 : kst) (o : kop) (hw : Z) : Z :=
   if match o with
-     | KOpen => k_dorm s1 && negb (k_closed s1) && (k_prev s1 <? k_last s1) && negb (k_ack s1)
+     | KOpen => negb (k_drain s1) && k_dorm s1 && negb (k_closed s1) && (k_prev s1 <? k_last s1) && negb (k_ack s1)
      | _ => false
      end then Z.max (k_now s1) (k_last s1 + kc_time c)
-  else match o with KRead | KCloseStream | KAckOn => -1 | _ => hw end.
+  else match o with KRead | KCloseStream | KAckOn | KGoAway => -1 | _ => hw end.
 
 Lemma winv_act c s1 o hw : cfg_ok c -> kinv c s1 -> winv s1 hw -> winv (fst (act c s1 o)) (hw_next c s1 o hw).
 Proof.
@@ -452,7 +505,8 @@ Proof.
   - destruct o; cbn [fst].
     + exact W.
     + left; lia.
-    + destruct (k_dorm s1) eqn:Dm.
+    + destruct (k_drain s1) eqn:Dr; cbn [negb andb fst]; [exact W|].
+      destruct (k_dorm s1) eqn:Dm.
       * cbn [negb andb]. destruct (i_dorm _ _ I Dm) as [_ O].
         destruct (Z.ltb_spec (k_prev s1) (k_last s1)) as [H|H]; cbn [andb].
         -- destruct (k_ack s1) eqn:A; cbn [negb].
@@ -471,14 +525,19 @@ Proof.
     + left; lia.
     + destruct W as [H|[(H & _)|(_ & D & S1 & A & L & O)]]; [left; exact H|congruence|].
       right. right. cbn. repeat split; auto.
+    + left; lia.
 Qed.
 
 Lemma kclause_ok c s h x o : cfg_ok c -> 0 <= x -> kinv c s -> h_ping h = k_ping s -> winv s (h_wake h) ->
+  (k_closed s = true -> h_seen h = true) ->
   let r := kstep c s x o in
   let q := kclause c s h x o (k_now (fst r) :: flat (snd r)) in
-  forallb okc (fst q) = true /\ h_ping (snd q) = k_ping (fst r) /\ winv (fst r) (h_wake (snd q)).
+  forallb okc (fst q) = true /\ h_ping (snd q) = k_ping (fst r) /\ winv (fst r) (h_wake (snd q)) /\
+  (k_closed (fst r) = true -> h_seen (snd q) = true).
 Proof.
-  intros C Hx I Hp W. cbv zeta. unfold kclause. rewrite evs_flat.
+  intros C Hx I Hp W Sn. cbv zeta. unfold kclause. rewrite evs_flat.
+  assert (Sn' : k_closed (fst (kstep c s x o)) = true -> h_seen h || existsb is_close (snd (kstep c s x o)) = true).
+  { intros Hc. destruct (kstep_close_seen c s x o C Hx I Hc) as [H|H]; [rewrite (Sn H); reflexivity|rewrite H; apply orb_true_r]. }
   destruct (kstep_ok c s x o C Hx I) as [_ K]. cbv zeta in K.
   set (s1 := fst (advance (fuel_for c (1000 * x + 1)) c s (k_now s + (1000 * x + 1)))).
   fold (hw_next c s1 o (h_wake h)).
@@ -496,19 +555,44 @@ Proof.
     destruct (fold_chk c lv hw l [] (h_ping h) (k_ping (fst (kstep c s x o))) eq_refl) as [F1 F2];
     [rewrite Hp; exact K|];
     destruct (fold_left (kcl_step c lv hw) l ([], h_ping h)) as [cl p] end.
-  cbn [fst snd h_ping h_wake] in *. auto.
+  cbn [fst snd h_ping h_wake h_seen] in *. repeat split; auto.
+  rewrite forallb_app, F1. cbn [forallb andb]. unfold okc. cbn [fst snd finding_clause orb].
+  destruct (k_closed (fst (kstep c s x o))); [rewrite (Sn' eq_refl)|]; reflexivity.
 Qed.
 
 Lemma kclauses_run c : cfg_ok c -> forall ops s h, xs_ok ops -> kinv c s -> h_ping h = k_ping s -> winv s (h_wake h) ->
+  (k_closed s = true -> h_seen h = true) ->
   forallb okc (kclauses c s h ops (krun c s ops)) = true.
 Proof.
-  intros C. induction ops as [|[x o] ops IH]; intros s h X I Hp W; cbn [krun kclauses]; [reflexivity|].
+  intros C. induction ops as [|[x o] ops IH]; intros s h X I Hp W Sn; cbn [krun kclauses]; [reflexivity|].
   inversion X; subst. cbn [fst] in *.
-  destruct (kclause_ok c s h x o C H1 I Hp W) as (A & B & W'). cbv zeta in A, B, W'.
+  destruct (kclause_ok c s h x o C H1 I Hp W Sn) as (A & B & W' & Sn'). cbv zeta in A, B, W', Sn'.
   pose proof (proj1 (kstep_ok c s x o C H1 I)) as I'.
   destruct (kstep c s x o) as [s' ev] eqn:K. cbn [fst snd] in *. cbn [kclauses]. rewrite ?K. cbn [fst].
   destruct (kclause c s h x o (k_now s' :: flat ev)) as [cl h']. cbn [fst snd] in *.
   rewrite forallb_app, A. apply IH; auto.
+Qed.
+
+(* what clause 8 asks of an implementation trace holds of every model trace: a transport that the
+   loop has closed shows the close event in the observations *)
+Definition shows_close (obs : list word) : bool := existsb (fun ob => existsb is_close (evs ob)) obs.
+Lemma closed_shown_from c ops : cfg_ok c -> forall s, xs_ok ops -> kinv c s ->
+  k_closed (kreach c s ops) = true -> k_closed s = true \/ shows_close (krun c s ops) = true.
+Proof.
+  intros C. induction ops as [|[x o] ops IH]; intros s X I; cbn [kreach krun]; [auto|].
+  inversion X; subst. cbn [fst] in *.
+  pose proof (proj1 (kstep_ok c s x o C H1 I)) as I'.
+  pose proof (kstep_close_seen c s x o C H1 I) as K.
+  destruct (kstep c s x o) as [s' ev]. cbn [fst snd] in *.
+  intros Hc. unfold shows_close. cbn [existsb]. rewrite evs_flat.
+  destruct (IH s' H2 I' Hc) as [H|H].
+  - destruct (K H) as [K1|K1]; [left; exact K1|right; rewrite K1; reflexivity].
+  - right. unfold shows_close in H. rewrite H. apply orb_true_r.
+Qed.
+Theorem closed_shown c ops : cfg_ok c -> xs_ok ops ->
+  k_closed (kreach c (kinit c) ops) = true -> shows_close (krun c (kinit c) ops) = true.
+Proof.
+  intros C X Hc. destruct (closed_shown_from c ops C (kinit c) X (kinv_init c C) Hc) as [H|H]; [discriminate|exact H].
 Qed.
 
 (* ---- ledger ---- *)
